@@ -161,6 +161,23 @@ func ruleR08j(c *Ctx, rule string, floor int) {
 			}
 		}
 	}
+	// checks made through a typed-visit helper: the helper's contract is decided once, its call sites count as checked
+	var helpers []*typedVisit
+	for _, tv := range c.typedVisitHelpers() {
+		helpers = append(helpers, tv)
+	}
+	sort.Slice(helpers, func(i, j int) bool { return helpers[i].fn.Pos() < helpers[j].fn.Pos() })
+	for _, tv := range helpers {
+		c.seeFn(tv.fn)
+		key := fnName(tv.fn) + ":enforces-the-expected-type"
+		sites := len(c.CallersOf(tv.fn))
+		if tv.ok {
+			n += sites
+			c.ok(rule, key, tv.fn.Pos(), fmt.Sprintf("every successful return of the helper lies behind `type == expected` (%d call sites rely on it)", sites))
+		} else {
+			c.bad(rule, key, tv.fn.Pos(), fmt.Sprintf("%s is given the static type it must require, yet a path returns successfully without the visited expression's type having been found equal to it: its %d call sites accept expressions of any type", fnName(tv.fn), sites))
+		}
+	}
 	if n < floor {
 		c.undecided(rule, "floor:checked-types", token.NoPos, fmt.Sprintf("expected at least %d call sites whose static type is compared with a constant, found %d", floor, n))
 	}
